@@ -456,6 +456,43 @@ Proof.
     apply H. symmetry. apply Hc. lia.
 Qed.
 
+(* ------------------------------------------------------------------ always at run level *)
+(* [always p], p non-temporal and true in every step so far: PRESUMABLY_TRUE *)
+Lemma always_all_true f v : nontemporal f = true ->
+  (forall r, In r v -> eval_now f r = true) -> verdict (Always f) v = BPT.
+Proof.
+  intros Hn Hall. unfold verdict. simpl.
+  pose proof (ev_spec (fun k => neg (mon f v k)) 0 (length v)) as Hsp.
+  destruct (find _ _) eqn:E.
+  - exfalso. apply find_seq_some in E. destruct E as (Hk & Htr & _).
+    rewrite mon_nontemporal in Htr by auto.
+    rewrite Hall in Htr; [discriminate|]. apply nth_In. lia.
+  - rewrite Hsp. reflexivity.
+Qed.
+
+Lemma run_from_always f s w : nontemporal f = true -> eval_now f s = false ->
+  forall u seen lastv, (forall r, In r (seen ++ u) -> eval_now f r = true) ->
+  run_from (Always f) seen (u ++ s :: w) lastv = Reject (length seen + length u).
+Proof.
+  intros Hn Hs. induction u as [|r u IH]; intros seen lastv Hall; simpl.
+  - rewrite (always_false_now f seen s Hn Hs). simpl. f_equal. lia.
+  - rewrite (always_all_true f (seen ++ [r]) Hn).
+    + simpl. rewrite IH.
+      * f_equal. rewrite app_length. simpl. lia.
+      * intros x Hx. apply Hall. rewrite <- app_assoc in Hx. exact Hx.
+    + intros x Hx. apply Hall. apply in_app_or in Hx. apply in_or_app.
+      destruct Hx as [Hx|[<-|[]]]; [left; auto | right; left; auto].
+Qed.
+
+(* the run rejects exactly at the first step in which the non-temporal condition is false *)
+Theorem always_rejects_at_first_false f u s w : nontemporal f = true ->
+  (forall r, In r u -> eval_now f r = true) -> eval_now f s = false ->
+  run (Always f) (u ++ s :: w) = Reject (length u).
+Proof.
+  intros Hn Hall Hs. unfold run.
+  rewrite (run_from_always f s w Hn Hs u [] BT); auto.
+Qed.
+
 (* ------------------------------------------------------------------ refutations (F5) *)
 Definition nested_until_witness_f := Always (Until (Atom 0) (Atom 1)).
 Definition nested_until_witness_tr : trace :=
